@@ -585,6 +585,20 @@ func (c *VirtualTable) Insert(ctx context.Context, values map[int]interface{}) (
 	var old *v1proto.Row
 	var new v1proto.Row
 	var ot time.Time
+	// An INTEGER and a REAL of the same value are one key (they compare equal)
+	// but hash to different tree layers. If the row was stored under the other
+	// numeric type, address that entry: a second, equal key would break the tree.
+	if twin := numericTwin(NewKey(key)); twin != nil {
+		var trow *v1proto.Row
+		var tt time.Time
+		tok, err := getRow(ctx, c, twin, &trow, &tt)
+		if err != nil {
+			return 0, fmt.Errorf("get: %w", err)
+		}
+		if tok {
+			key = twin.Value()
+		}
+	}
 	ok, err := getRow(ctx, c, NewKey(key), &old, &ot)
 	if err != nil {
 		return 0, fmt.Errorf("get: %w", err)
